@@ -10,7 +10,8 @@
    Wire *identity* (the Python object) is the `wid`; a clone is a fresh object, so
    the model allocates fresh ids beyond every id of the source.  The dict
    temp_wv_map is the function `fresh_map nl`. *)
-From PyRTL Require Export Netlist.Sem.
+From PyRTL Require Export Netlist.Sem Pass.CopyAttrDefs.
+From PyRTL Require Export Gen.CopyAttrs.
 
 (* ---------------------------------------------------------------- renaming *)
 
@@ -65,14 +66,13 @@ Definition clone_kind_f2 (k : kind) : kind :=
 (* what the property requires of clone_wire: every attribute is kept *)
 Definition clone_kind_spec (k : kind) : kind := k.
 
-(* ***  THE ONE SPOT THAT SAYS WHAT /repo DOES NOW  ***
-   `clone_kind_spec` now that transform.clone_wire passes reset_value (F2
-   repaired); it was `clone_kind_f2` before.  If the defect comes back, the
-   check's structural tie (real copy_block vs this definition, every run) breaks
-   and the search reports 'reset-value-dropped:copy_block'; to model the
-   defective code again put `clone_kind_f2` here and swap the marked theorem in
-   Props/C11.v for C11_copy_reset_refuted_of_f2's instance. *)
-Definition clone_kind : kind -> kind := clone_kind_spec.
+(* WHAT /repo DOES NOW is no longer written by hand: Gen/CopyAttrs.v is
+   regenerated on every run by py/genfrag_C11.py from the source of
+   transform.clone_wire (per class: which constructor, which attributes are
+   passed, which fall back to the constructor's defaults).  `clone_kind` is read
+   off that generated function; Pass/CopyGen.v proves it keeps every attribute
+   (the proof breaks when the source stops passing one). *)
+Definition clone_kind (k : kind) : kind := wkind (gen_clone_wire 0 (mkWire 0 0 k)).
 
 Definition map_kinds (ck : kind -> kind) (nl : netlist) : netlist :=
   mkNetlist (map (fun x => mkWire (wname x) (wwidth x) (ck (wkind x))) (wires nl))
@@ -87,8 +87,15 @@ Definition fresh_map (nl : netlist) : wid -> wid := fun w => w + fresh_offset nl
 Definition clone_wire (ck : kind -> kind) (f : wid -> wid) (x : wire) : wire :=
   mkWire (f (wname x)) (wwidth x) (ck (wkind x)).
 
-(* MemBlock._make_copy / RomBlock._make_copy (bitwidth, addrwidth, romdata kept)
-   followed by `new_mem.id = old_mem.id` *)
+(* MemBlock._make_copy / RomBlock._make_copy followed by `new_mem.id = old_mem.id`:
+   the generated attribute-level function (Gen/CopyAttrs.v), restricted to the
+   part of a memory the netlist carries *)
+Definition gen_make_copy_mem (m : mem) : mem :=
+  core_mem (gen_get_new_block_mem_instance (-1) (mattrs_of_core m)).
+
+(* the same, as the property requires it (id, widths, ROM contents kept); the
+   generic copy lemmas are stated over this one, Pass/CopyGen.v proves the
+   generated function equal to it *)
 Definition make_copy_mem (m : mem) : mem := mkMem (mid m) (maddrw m) (mdataw m) (mrom m).
 
 (* transform._copy_net *)
@@ -103,6 +110,15 @@ Definition copy_with (ck : kind -> kind) (nl : netlist) : netlist * (wid -> wid)
 (* the code as it is / the code as the property requires it *)
 Definition copy_block (nl : netlist) : netlist * (wid -> wid) := copy_with clone_kind nl.
 Definition copy_block_spec (nl : netlist) : netlist * (wid -> wid) := copy_with clone_kind_spec nl.
+
+(* copy_block assembled ONLY from generated fragments: _clone_block_and_wires
+   (gen_clone_wires over ALL declared wires), _copy_net (gen_copy_net),
+   _get_new_block_mem_instance o _make_copy (gen_make_copy_mem).  This is what the
+   structural tie compares with the real copy_block result. *)
+Definition copy_block_gen (nl : netlist) : netlist * (wid -> wid) :=
+  let f := fresh_map nl in
+  (mkNetlist (gen_clone_wires f (wires nl)) (map (gen_copy_net f) (nets nl))
+             (map gen_make_copy_mem (mems nl)), f).
 
 (* inputs for the copy: the same values on the corresponding Input wires *)
 Definition shift_ins (off : Z) (ins : wid -> Z) : wid -> Z := fun w => ins (w - off).
@@ -195,7 +211,17 @@ Definition fp_code (nl : netlist) : list (list Z) :=
      2: what the property requires: rename of src (every attribute kept)
      3: [fresh_offset; 1 if the identities of row 0 are disjoint from src's] *)
 Definition copy_tie_case (src cp : netlist) : list (list (list Z)) :=
-  let '(m, f) := copy_block src in
+  let '(m, f) := copy_block_gen src in
   [ fp_code m; fp_code (rename f cp); fp_code (rename f src);
     [[fresh_offset src;
       b2z (forallb (fun x => forallb (fun y => negb (wname x =? wname y)) (wires src)) (wires m))]] ].
+
+(* attribute-level tie for memories: what the generated _make_copy /
+   _get_new_block_mem_instance give for the attributes of each source memory
+   (the harness compares with the attributes of the real copies) *)
+Definition optz (o : option Z) : Z := match o with Some v => v | None => -1 end.
+Definition mattrs_code (a : mattrs) : list Z :=
+  [ma_id a; ma_name a; ma_bitwidth a; ma_addrwidth a; b2z (ma_async a); optz (ma_max_read a);
+   optz (ma_max_write a); b2z (is_rom a); b2z (ma_pad a); b2z (ma_newroms a)].
+Definition mem_tie_case (l : list mattrs) : list (list Z) :=
+  map (fun a => mattrs_code (gen_get_new_block_mem_instance (-1) a)) l.
